@@ -12,7 +12,7 @@ from ..universe import make_event, PK
 
 ID = "C04"
 LEVEL = "model_checking"
-ASSUMPTIONS = ["see C09; HTTP path = real ViewEventResource.on_get + falcon's response media rendering, called without a socket"]
+ASSUMPTIONS = ["real nostr_relay code imported from /repo's working tree, driven through web.start_client / the storage API; SQLite runs for real behind a same-thread connection shim (bound to real aiosqlite by C06's conformance cases); LMDB is an in-memory double (bound to the real liblmdb by C10's conformance cases), msgpack is pip's pure-python codec; asyncio runs on a controlled virtual-time loop; HTTP path = real ViewEventResource.on_get + falcon's response media rendering, called without a socket"]
 CHUNK = 4
 
 PACK = 256
